@@ -17,7 +17,7 @@ PROPS = {
     'C01': _p(['E1', 'E2', 'E3', 'E4', 'E9', 'EM']),
     'C02': _p(['E2', 'E3', 'E4', 'E9', 'EM']),
     'C03': _p(['E3', 'E4', 'E9', 'E1', 'EM']),
-    'C04': _p(['E1', 'E2', 'E3', 'E4', 'E9', 'EM']),
+    'C04': _p(['E1', 'E2', 'E3', 'E4', 'E9', 'E5', 'EM']),
     'C05': _p(['E5', 'EM']),
     'C06': _p(['E5', 'E3']),
     'C07': _p(['E9']),
